@@ -4290,6 +4290,12 @@ func (t *Terminal) killForeground() {
 	t.executingMutex.Unlock()
 }
 
+func (t *Terminal) isTerminating() bool {
+	t.executingMutex.Lock()
+	defer t.executingMutex.Unlock()
+	return t.terminating
+}
+
 func (t *Terminal) hasPreviewer() bool {
 	return t.previewBox != nil
 }
@@ -5161,6 +5167,12 @@ func (t *Terminal) Loop() error {
 			t.mutex.Unlock()
 			return nil
 		}
+		if t.isTerminating() {
+			// Told to terminate while a command was running in the foreground: the
+			// keys typed in the meantime are not to start anything new
+			t.mutex.Unlock()
+			continue
+		}
 		for key, ret := range t.expect {
 			if keyMatch(key, event) {
 				t.pressed = ret
@@ -5259,7 +5271,7 @@ func (t *Terminal) Loop() error {
 			case actIgnore, actStart, actClick:
 			case actBecome:
 				valid, list := t.buildPlusList(a.a, false)
-				if valid {
+				if valid && !t.isTerminating() {
 					// We do not remove temp files in this case
 					command, _ := t.replacePlaceholder(a.a, false, string(t.input), list)
 					t.tui.Close()
